@@ -16,7 +16,7 @@ for d in /verif/seeded/C*-5; do
   with="(demo is a script / separate crate: see README.txt)"; without="$with"
   if [ -f $d/seeded_demo.rs ] && ! grep -q "run_demo\|#\[path" $d/seeded_demo.rs 2>/dev/null && [ ! -f $d/run_demo.sh -o -d $d/seeded_cases ]; then
     cp $d/seeded_demo.rs assert-struct/tests/seeded_demo.rs
-    for sub in seeded_demo_cases seeded_cases; do [ -d $d/$sub ] && cp -r $d/$sub assert-struct/tests/; done
+    for sub in seeded_demo_cases seeded_cases seeded_demo seeded_demo_case; do [ -d $d/$sub ] && cp -r $d/$sub assert-struct/tests/; done
     with=$(cargo test --offline -p assert-struct --test seeded_demo 2>&1 | grep -E "^test result|error: could not compile|error\[" | head -1 | cut -c1-80)
     git apply -R $d/patch.diff
     without=$(cargo test --offline -p assert-struct --test seeded_demo 2>&1 | grep -E "^test result|error: could not compile|error\[" | head -1 | cut -c1-80)
